@@ -91,7 +91,8 @@ PROFILES = {
                 gens=[dict(ids=["SOne", "SChain", "SIndep", "SNest", "SLit", "S2", "SDup", "SDup", "SSw", "SVm", "STup3", "STup3"], first=["simulate", "generate"], edits=["update", "regenerate", "staticreq", "assess", "assess", "assess"], depth=3, n=(160, 2000))]),
     "C23": dict(own=["mode.status", "mode.same"], modes=True,
                 gens=[dict(ids=[x for x in FAST if x not in ("SLit",)] + ["VmNest"], first=["simulate", "generate"], edits=["update", "update", "updateargs", "regenerate", "project"], depth=2, n=(48, 1500)),
-                      dict(ids=SLOW, first=["simulate", "generate"], edits=["update", "regenerate", "indexupdate"], depth=1, n=(8, 300))]),
+                      dict(ids=SLOW, first=["simulate", "generate"], edits=["update", "regenerate", "indexupdate"], depth=1, n=(8, 300)),
+                      dict(ids=["SwSame", "SwN", "SwXY", "MskSw", "Msk"], first=["simulate", "generate"], edits=["update", "updateargs"], depth=1, n=(32, 300), concrete=True)]),   # Python int / bool arguments: eager short-cuts vs traced paths
     "C32": dict(own=CORE + ["derived.run", "derived.same", "undo.run", "undo.restore", "undo.weight"],
                 gens=[dict(ids=["Clo1", "Clo2", "Clo0", "CloP", "CloK", "CloPK", "CloPK2", "CloSw", "CloVm"], first=["simulate", "generate"],
                            edits=["update", "update", "updateargs", "regenerate", "project", "assess"], depth=3, n=(120, 1500))]),
@@ -185,6 +186,7 @@ OPS_A = {   # property -> (invariants of spec/GFIOps.tla, quick program set, tho
     "C11": (["Consistent", "RefinesLaws", "UndoRestores"], ["VmD"], ["VmD", "Rep3"]),   # elementwise vmap/repeat rules, PV {0,1}
 }
 OPS_A["C12"] = (["Consistent", "RefinesLaws", "UndoRestores"], ["Sc2"], ["Sc1", "Sc2", "Sc3"])   # Scan.edit_update loop rule
+OPS_A["C07"] = (["Consistent", "RegenRefines", "UndoRestores"], ["SChain"], ["SChain", "S2", "Sc2"])   # Distribution.edit_regenerate / RegenerateRequestHandler / Scan.edit_regenerate
 OPS_PV = {"C11": "{0, 1}"}
 
 
@@ -219,7 +221,7 @@ def ops_a(prop_id, wd, tier, rep):
         rep.add_tlc(r2)
         info["scan_of_switch"] = ("as implemented (ScanRetagsAll): counterexample to RefinesLaws = finding KF-C05-2; "
                                   f"with honest carry tags: {r2.distinct} states, no invariant violated")
-    if tier == "thorough" and prop_id not in ("C11", "C12"):
+    if tier == "thorough" and prop_id not in ("C11", "C12", "C07"):
         for tag, ma, sz in (("maskbwd", "TRUE", "FALSE"), ("switchbwd", "FALSE", "TRUE")):
             r = run(tag, ma, sz, False)
             if r.rc == 0:
@@ -258,7 +260,10 @@ def generate(wd, gens, tier, seed, rep):
             _cfg(wd, name, "SpecRand", "EmitCase", g["depth"], (seed * 7 + gi) % 60000, nchains, nper)
         res = vlib.run_tlc(name, os.path.join(wd, name + ".cfg"), wd, spec_dir=wd, jvm=JVM_LIB, tag=name, timeout=1200)
         rep.add_tlc(res)
-        cases.extend(res.payloads("CASE"))
+        for c in res.payloads("CASE"):
+            if g.get("concrete"):
+                c["concrete"] = True
+            cases.append(c)
     return cases
 
 
